@@ -46,7 +46,7 @@ def persist_precip(cfg):
     return ev, info
 
 
-def persist_diffusion(c, record):
+def persist_diffusion(c, record, variant="plain"):
     from . import diff_drv as D
     from kawin.solver.Solver import SolverType
     ev = [{"e": "init", "allowed": []}]
@@ -60,19 +60,26 @@ def persist_diffusion(c, record):
                 m._recordedX, m._recordedTime = None, None      # what the constructor does for record=False
             return m
         m = mk()
-        for span in c["calls"]:
+        for ci, span in enumerate(c["calls"]):
             m.solve(float(span), solverType=SolverType.EXPLICITEULER, maxDtFrac=1)
+            if variant == "on_then_off" and ci == 0:
+                m.disableRecording()          # the history recorded so far is kept (documented)
+        if variant == "on_then_off" and len(c["calls"]) == 1:
+            m.disableRecording()
+        if variant == "data_removed":
+            m.removeRecordedData()
         path = os.path.join(tmp, "diff")
         m.save(path)
         m2 = mk()
         m2.load(path)
         ev.append({"e": "cmp", "name": "t", "c": arr_cmp([m.t], [m2.t], 0.0)})
         ev.append({"e": "cmp", "name": "x", "c": arr_cmp(m.x, m2.x, 0.0)})
-        if record:
-            ev.append({"e": "cmp", "name": "recordedX", "c": arr_cmp(m._recordedX, m2._recordedX, 0.0)})
-            ev.append({"e": "cmp", "name": "recordedTime", "c": arr_cmp(m._recordedTime, m2._recordedTime, 0.0)})
+        if m._recordedX is not None:
+            ev.append({"e": "cmp", "name": "recordedX", "c": "shape" if m2._recordedX is None else arr_cmp(m._recordedX, m2._recordedX, 0.0)})
+            ev.append({"e": "cmp", "name": "recordedTime", "c": "shape" if m2._recordedTime is None else arr_cmp(m._recordedTime, m2._recordedTime, 0.0)})
             info["steps"] = len(m._recordedTime)
         else:
+            ev.append({"e": "cmp", "name": "recordedX-absent", "c": "eq" if m2._recordedX is None or len(m2._recordedX) == 0 else "gt"})
             info["steps"] = 2
     except Exception as ex:  # noqa
         ev.append({"e": "exception", "msg": "%s: %s" % (type(ex).__name__, str(ex)[:200])})
